@@ -114,7 +114,8 @@ theorem FSeg.writeInto_zero (ovl : Bytes → Nat → Nat → Nat → Bytes) (s :
     {offset bs : Nat} (hst : Small s.srcStart) (hoff : Small offset) (hbs : Small bs) (hpos : 0 < bs)
     (hsz : s.size = 0) : s.writeInto ovl fs offset 0 bs = .ok fs 0 0 false := by
   rw [FSeg.writeInto_eq_N ovl s fs hst hoff (by unfold Small; omega) hbs hpos, hsz,
-    if_neg (fun h => h rfl), copyInto_zero, fsCloneN_zero ovl fs s.src s.srcStart offset bs hpos]
+    if_neg (fun h => h rfl), copyInto_zero,
+    fsWriteCloneN_of_ok (fsCloneN_zero ovl fs s.src s.srcStart offset bs hpos)]
   split <;> rfl
 
 /-- a segment of a seed file whose bytes are there: the write succeeds and the destination holds
@@ -1013,10 +1014,22 @@ theorem FSeg.writeInto_copy_ok (ovl : Bytes → Nat → Nat → Nat → Bytes) (
     if_pos (Or.inl hcr)]
   exact ⟨_, _, _, rfl⟩
 
-/-- a file segment taken from the target itself, without reflinks, under `regenerate` -/
+/-- with or without reflinks, `WriteInto` with the right length cannot fail: a refused clone is
+    followed by a copy -/
+theorem FSeg.writeInto_ok_of_size (ovl : Bytes → Nat → Nat → Nat → Bytes) (s : FSeg) (fs : FS)
+    {offset length bs : Nat} (hst : Small s.srcStart) (hoff : Small offset) (hlen : Small length)
+    (hbs : Small bs) (hpos : 0 < bs) (hsz : length = s.size) :
+    ∃ fs' c cl fz, s.writeInto ovl fs offset length bs = .ok fs' c cl fz := by
+  have hne := FSeg.writeInto_never_errs_after_size_check ovl s fs hst hoff hlen hbs hpos
+    (by rw [hsz])
+  cases h : s.writeInto ovl fs offset length bs with
+  | err => exact absurd h hne
+  | ok fs' c cl fz => exact ⟨fs', c, cl, fz, rfl⟩
+
+/-- a file segment taken from the target itself, with or without reflinks, under `regenerate` -/
 structure ItemAlias (cf : Cfg) (e : Env) (t0 : Bytes) (it : PlanItem) : Prop where
   act : cf.act = .regenerate
-  file : ∃ k seg, it.source = .file k seg ∧ seg.src = .target ∧ seg.canReflink = false ∧
+  file : ∃ k seg, it.source = .file k seg ∧ seg.src = .target ∧
     SegMatch cf e t0 it.first (it.last + 1 - it.first) seg.chunks
 
 theorem runJob_alias_total {cf : Cfg} {e : Env} {blob : Bytes} {files : List Bytes} {t0 : Bytes}
@@ -1034,9 +1047,9 @@ theorem runJob_alias_total {cf : Cfg} {e : Env} {blob : Bytes} {files : List Byt
   have hlen : Small (e.startOf it.last + e.sizeOf it.last - e.startOf it.first) := wf_small_of_le wf (by omega)
   have hdst : e.startOf it.first + (e.startOf it.last + e.sizeOf it.last - e.startOf it.first) ≤ r.fs.target.length := by
     rw [hi.done.1]; omega
-  obtain ⟨k, seg, hsrc, htgt, hcr, sm⟩ := al.file
-  obtain ⟨fs', c, fz, hw⟩ := FSeg.writeInto_copy_ok cf.ovl seg r.fs (ok.file k seg hsrc) hoff hlen
-    wf.small.2 wf.bs_pos (sm.size_eq wf hle hlt).symm hcr
+  obtain ⟨k, seg, hsrc, htgt, sm⟩ := al.file
+  obtain ⟨fs', c, cl, fz, hw⟩ := FSeg.writeInto_ok_of_size cf.ovl seg r.fs (ok.file k seg hsrc) hoff hlen
+    wf.small.2 wf.bs_pos (sm.size_eq wf hle hlt).symm
   obtain ⟨_, hag⟩ := FSeg.writeInto_confined (ok.file k seg hsrc) hoff hlen wf.small.2 wf.bs_pos hdst hw
   have hd0 : Done e blob fs'.target it.first :=
     done_agree wf hfirst hi.done (Nat.le_refl _) hag
@@ -1088,11 +1101,11 @@ theorem runJobs_total_regen {cf : Cfg} {e : Env} {blob : Bytes} {files : List By
       (fun it' hm => hok it' (List.mem_cons_of_mem _ hm)) hi1 hsame1
     exact ⟨r', by rw [runJobs, hj]; exact hjs⟩
 
-/-- a seed in a file of its own, or the target itself without reflinks -/
+/-- a seed in a file of its own, or the target itself (with or without reflinks) -/
 structure SeedGoodR (files : List Bytes) (s : Seed) : Prop where
   small : ∀ c ∈ s.chunks, Small c.start ∧ Small c.size
   contig : Contig s.chunks
-  src : s.Static files ∨ (s.src = .target ∧ s.canReflink = false)
+  src : s.Static files ∨ s.src = .target
 
 theorem plan_itemGood_regen {cf : Cfg} {e : Env} {files : List Bytes} {t : Bytes} {seeds : List Seed}
     (hact : cf.act = .regenerate)
@@ -1122,7 +1135,7 @@ theorem plan_itemGood_regen {cf : Cfg} {e : Env} {files : List Bytes} {t : Bytes
     have hsg := hg s (List.mem_of_getElem? hk)
     obtain ⟨_, hvalid⟩ := validatePlan_none_file hv hm hsrc
     have hcontig : Contig seg.chunks := by rw [hsub]; exact contig_drop_take hsg.contig p n
-    rcases hsg.src with ⟨j, hj, hjlt⟩ | ⟨htgt, hcr⟩
+    rcases hsg.src with ⟨j, hj, hjlt⟩ | htgt
     · left
       refine ⟨?_, fun a b cr h => by rw [hsrc] at h; cases h⟩
       intro k' seg' h
@@ -1133,16 +1146,18 @@ theorem plan_itemGood_regen {cf : Cfg} {e : Env} {files : List Bytes} {t : Bytes
       exact ⟨j, by rw [hssrc, hj], hjlt, hlen, hids, hcontig, hvalid⟩
     · right
       rw [hssrc, htgt] at hvalid
-      exact ⟨hact, k, seg, hsrc, by rw [hssrc, htgt], by rw [hcr0, hcr], hlen, hids, hcontig, hvalid⟩
+      exact ⟨hact, k, seg, hsrc, by rw [hssrc, htgt], hlen, hids, hcontig, hvalid⟩
 
-/-- 3, extended.  With `regenerate` a seed may also be the target itself, provided that it cannot
-    be reflinked: whatever the copy leaves in the target, the chunks that do not hash to their IDs
-    are fetched.  (With reflinks the run can fail: see the example at the end.) -/
+/-- 3, extended.  With `regenerate` a seed may also be the target itself, with or without reflinks:
+    a clone of overlapping ranges is refused by the file system, `WriteInto` then copies
+    (`FSeg.writeInto_never_errs_after_size_check`), and whatever the copy leaves in the target, the
+    chunks that do not hash to their IDs are fetched.  (Before `WriteInto` fell back to a copy the
+    run failed with reflinks: see the example at the end.) -/
 theorem assemble_complete_regenerate_alias {cf : Cfg} {e : Env} {blob : Bytes} {seeds : List Seed}
     {files : List Bytes} {prior : Option Bytes} (hwf : WFSeq cf e blob) (hst : StoreComplete cf e blob)
     (hnull : NullIsZeros cf e) (hb : cf.isBlank = isBlankOf prior) (hsm : SeedsSmall seeds)
     (hct : SeedsContiguous seeds)
-    (hsrc : ∀ s ∈ seeds, s.Static files ∨ (s.src = .target ∧ s.canReflink = false))
+    (hsrc : ∀ s ∈ seeds, s.Static files ∨ s.src = .target)
     (hact : cf.act = .regenerate)
     (hre : RechunkOK cf.H cf.rechunk) (hrs : RechunkSmall cf.rechunk) (hrc : RechunkContig cf.rechunk) :
     ∃ r, assemble cf e seeds files prior = some r ∧ r.fs.target = blob := by
@@ -1151,7 +1166,7 @@ theorem assemble_complete_regenerate_alias {cf : Cfg} {e : Env} {blob : Bytes} {
     rw [hact]
     apply findPlan_regenerate_total cf.H cf.rechunk e (initFS e files prior) seeds hre
     intro s hs
-    rcases hsrc s hs with h | ⟨h, _⟩
+    rcases hsrc s hs with h | h
     · exact static_exists h
     · rw [h]; rfl
   obtain ⟨seeds', rfl, hv, hg⟩ := findPlan_returns_inv (P := SeedGoodR files)
@@ -1448,9 +1463,11 @@ theorem al_contig (cr : Bool) : SeedsContiguous (alSeeds cr) := by
 /-- `Static`: a seed that is the target itself.  Everything else holds: the store is complete and
     the seed is consistent (the plan validates: chunk 0 from the store, chunks 1 to 3 from bytes 0 to
     5 of the target, to be moved to bytes 2 to 7).
-    * With reflinks source and destination are aligned, `clone` asks for FICLONERANGE of
-      overlapping ranges of one file, which is EINVAL: the run fails whatever the action, also with
-      `regenerate`, because the error is returned before any chunk is re-hashed.
+    * With reflinks source and destination are aligned, `clone` copies the head (bytes 0, 1 to
+      2, 3) and asks for FICLONERANGE of overlapping ranges of one file, which is EINVAL.
+      `WriteInto` then copies the whole range instead of returning the error (before that repair
+      the run failed whatever the action, also with `regenerate`, because the error was returned
+      before any chunk was re-hashed), and the run goes on as it does without reflinks.
     * Without reflinks the overlapping copy produces what it produces (here: nothing); the re-hash
       fails; only `regenerate` recovers, by fetching all four chunks. -/
 example :
@@ -1462,7 +1479,12 @@ example :
       { target := truncate ((some alPrior).getD []) (indexLength alEnv.chunks), seeds := [] }) ∧
     (∀ cr, SeedsSmall (alSeeds cr)) ∧ (∀ cr, SeedsContiguous (alSeeds cr)) ∧
     (plan alEnv (alSeeds true)).map (fun it => it.first :: it.last :: it.source.code) = [[0, 0, 0], [1, 3, 1, 0, 0]] ∧
-    assemble (ckCfg .regenerate false) alEnv (alSeeds true) [] (some alPrior) = none ∧
+    FSeg.writeInto (ckCfg .regenerate false).ovl
+        ⟨.target, mkChunks 0 [([3, 4], 2), ([5, 6], 2), ([7, 8], 2)], true⟩ ⟨alPrior, []⟩ 2 6 2 =
+      .ok ⟨[3, 4, 3, 4, 7, 8, 0, 0], []⟩ 0 0 true ∧
+    (assemble (ckCfg .regenerate false) alEnv (alSeeds true) [] (some alPrior)).map
+        (fun r => (r.fs.target, r.stats)) =
+      some (alBlob, { fromStore := 4, inPlace := 0, fromSeed := 3, copied := 0, cloned := 0 }) ∧
     assemble (ckCfg .skip false) alEnv (alSeeds true) [] (some alPrior) = none ∧
     assemble (ckCfg .bailOut false) alEnv (alSeeds true) [] (some alPrior) = none ∧
     assemble (ckCfg .skip false) alEnv (alSeeds false) [] (some alPrior) = none ∧
@@ -1471,17 +1493,25 @@ example :
         (fun r => (r.fs.target, r.stats)) =
       some (alBlob, { fromStore := 4, inPlace := 0, fromSeed := 3, copied := 0, cloned := 0 }) :=
   ⟨alEnv_wf _ _, ck_store _ _ _ _ al_ids, ⟨4, rfl⟩, rfl, ck_rechunkOK, ck_rechunkSmall, ck_rechunkContig,
-    al_consistent, al_small, al_contig, by decide, by decide, by decide, by decide, by decide, by decide, by decide⟩
+    al_consistent, al_small, al_contig, by decide, rfl, by decide, by decide, by decide,
+    by decide, by decide, by decide⟩
 
-/-- `assemble_complete_regenerate_alias` applies to the run without reflinks -/
-example : ∃ r, assemble (ckCfg .regenerate false) alEnv (alSeeds false) [] (some alPrior) = some r ∧
+/-- `assemble_complete_regenerate_alias` applies to the run with reflinks and to the one without -/
+example (cr : Bool) : ∃ r, assemble (ckCfg .regenerate false) alEnv (alSeeds cr) [] (some alPrior) = some r ∧
     r.fs.target = alBlob :=
   assemble_complete_regenerate_alias (alEnv_wf _ _) (ck_store _ _ _ _ al_ids) ⟨4, rfl⟩ rfl (al_small _)
     (al_contig _)
     (fun s hs => by
       simp only [alSeeds, List.mem_singleton] at hs
       subst hs
-      exact .inr ⟨rfl, rfl⟩)
+      exact .inr rfl)
     rfl ck_rechunkOK ck_rechunkSmall ck_rechunkContig
+
+/-- the aliased seed with reflinks under `regenerate`: the refused clone no longer fails the run,
+    which ends with the exact blob -/
+example :
+    (assemble (ckCfg .regenerate false) alEnv (alSeeds true) [] (some alPrior)).map (fun r => r.fs.target) =
+      some alBlob := by
+  decide
 
 end Desync.Asm
